@@ -106,18 +106,24 @@ func (e *Engine) leavesOf(t types.Type) []leaf {
 }
 
 // fromLeaves rebuilds a Value of type t from its leaf terms.
-func (e *Engine) fromLeaves(t types.Type, ts []*Term) Value {
+func (e *Engine) fromLeaves(t types.Type, ts []*Term, st *State) Value {
 	switch repOf(t) {
 	case RBool, RInt, RByte, RStr, RFlt, RMap, RChan:
 		e.rangeFact(ts[0], t)
+		e.refFact(ts[0], t, st)
 		return ts[0]
 	case RPtr:
+		ts[0].AddFact(e.C.Le(e.C.IntC(0), ts[0]))
+		e.refBound(ts[0], st)
 		return e.ptrFromRef(ts[0], t)
 	case RSlice:
 		v := SliceV{ts[0], ts[1], ts[2], ts[3]}
 		e.sliceFacts(v)
+		e.refBound(v.Arr, st)
 		return v
 	case RIface:
+		ts[0].AddFact(e.C.And(e.C.Le(e.C.IntC(0), ts[0]), e.C.Le(e.C.IntC(0), ts[1])))
+		e.refBound(ts[1], st)
 		return IfaceV{ts[0], ts[1]}
 	case RFunc:
 		return FuncV{Opaque: ts[0]}
@@ -269,9 +275,9 @@ func (e *Engine) load(s *State, p PtrV) Value {
 		if p.Idx != nil { // element of an array-typed leaf
 			at := p.T.Underlying().(*types.Array)
 			v := c.Select(ts[0], p.Idx)
-			return e.fromLeaves(at.Elem(), []*Term{v})
+			return e.fromLeaves(at.Elem(), []*Term{v}, s)
 		}
-		return e.fromLeaves(p.T, ts)
+		return e.fromLeaves(p.T, ts, s)
 	case PBox:
 		if structOf(p.T) != nil {
 			return e.load(s, PtrV{Kind: PObj, Ref: p.Ref, T: p.T})
@@ -285,7 +291,7 @@ func (e *Engine) load(s *State, p PtrV) Value {
 			h := e.heapGet(s, boxKey(p.T)+l.comp, Array(Int, l.sort))
 			ts[i] = c.Select(h, p.Ref)
 		}
-		return e.fromLeaves(p.T, ts)
+		return e.fromLeaves(p.T, ts, s)
 	case PElem:
 		if structOf(p.T) != nil {
 			return e.load(s, PtrV{Kind: PObj, Ref: e.elemRef(p.Arr, p.Idx), T: p.T})
@@ -299,7 +305,7 @@ func (e *Engine) load(s *State, p PtrV) Value {
 			h := e.heapGet(s, elemKey(p.T)+l.comp, Array(Int, Array(Int, l.sort)))
 			ts[i] = c.Select(c.Select(h, p.Arr), p.Idx)
 		}
-		return e.fromLeaves(p.T, ts)
+		return e.fromLeaves(p.T, ts, s)
 	case PArr:
 		at := p.T.Underlying().(*types.Array)
 		es := e.leavesOf(at.Elem())
@@ -484,7 +490,7 @@ func (e *Engine) pathGet(v Value, t types.Type, path []Sel) Value {
 			return PoisonV{"pathGet index"}
 		}
 		if av.A != nil {
-			return e.pathGet(e.fromLeaves(at.Elem(), []*Term{e.C.Select(av.A, sel.Index)}), at.Elem(), path[1:])
+			return e.pathGet(e.fromLeaves(at.Elem(), []*Term{e.C.Select(av.A, sel.Index)}, nil), at.Elem(), path[1:])
 		}
 		// Go-side element list: build ite chain
 		var out Value
